@@ -720,7 +720,7 @@ func c09Update(op c09Op, st *c09Store) (string, func() bool, bool) {
 			return true
 		}, false
 	case "bad-body":
-		return fmt.Sprintf("assertz((d%d(%s, %s) :- 1))", op.Pred, op.K, op.S), nil, true
+		return fmt.Sprintf("assertz((d%d(%s, %s) :- %s))", op.Pred, op.K, op.S, c09BadBody(op.S)), nil, true
 	case "static":
 		return "assertz(atom_length(a, 1))", nil, true
 	}
@@ -765,7 +765,7 @@ func c09ExecInQuery(r *kit.Run, sc *c09Scenario, st *c09Store) {
 		case "abolish":
 			t = fmt.Sprintf("abolish(d%d/2)", a.Pred) // (no catch/3 here: this check must not depend on C04)
 		case "bad":
-			t = fmt.Sprintf("assertz((d%d(1, %s) :- 1))", a.Pred, a.S)
+			t = fmt.Sprintf("assertz((d%d(1, %s) :- %s))", a.Pred, a.S, c09BadBody(a.S))
 		}
 		goals = append(goals, t, fmt.Sprintf("note(a(%d))", j))
 	}
@@ -1222,4 +1222,14 @@ func c09ExecDisjBody(r *kit.Run, sc *c09Scenario) {
 	sc.Query = strings.Join(texts, ", ")
 	b, _ := json.Marshal(sc)
 	r.Out.ScenarioKey = string(b)
+}
+
+// c09BadBody is a body that is not callable: a number alone, or a number as the last / a middle alternative of a disjunction
+// whose other alternatives are fine (nothing of such a clause may be stored). Chosen by the stamp, no draw from the tape.
+func c09BadBody(stamp string) string {
+	n := 0
+	for _, ch := range stamp {
+		n += int(ch)
+	}
+	return []string{"1", "true ; 1", "atom(a) ; 2 ; true", "(true, 3)"}[n%4]
 }
